@@ -356,7 +356,14 @@ func generate(g *core.Gen) {
 // then requires, computed with the real rule through the block factory. The
 // difficulty is kept within 4 retarget steps of the minimum so that solving a
 // block stays cheap.
-func pacedTree(r *core.Rand, tree []blk) []blk {
+func pacedTree(r *core.Rand, tree []blk) (res []blk) {
+	// calls into the real difficulty code while GENERATING: never let a (mutated) tree crash the
+	// generator - fall back to the unpaced tree (the case is then an ordinary equal-work one)
+	defer func() {
+		if rec := recover(); rec != nil {
+			res = tree
+		}
+	}()
 	f := newFactory(pacedParams())
 	tm := map[int]blk{}
 	for _, b := range tree {
